@@ -1,15 +1,22 @@
 (* C15 -- results are invariant under physically irrelevant changes of the input.
-   Statements only; proofs are in IPV.C15.*.  Gen_C15_engine is regenerated from /repo on every run. *)
-From Coq Require Import QArith List String Permutation.
-Require Import IPV.C15.Ir IPV.C15.Units IPV.C15.Convert IPV.C15.ConvertBody IPV.C15.Checker IPV.Gen.Gen_C15_engine.
+   Statements only; proofs are in IPV.C15.*.
+   IPV.Gen.Gen_C15_engine (gen_convert_units, gen_add_solution, gen_add_mix) is regenerated from
+   /repo's prep.cpp and step.cpp on every run, so the theorems that mention comps_body, as_prefix,
+   as_totals_body, gen_add_mix, run_convert are re-proved about what the code says now. *)
+From Coq Require Import QArith List String ZArith Permutation.
+Require Import IPV.C15.Ir IPV.C15.Units IPV.C15.Convert IPV.C15.ExecLemmas IPV.C15.ConvertBody IPV.C15.UnitsProofs
+               IPV.C15.Store IPV.C15.Mix IPV.C15.MixGen IPV.C15.Checker IPV.Gen.Gen_C15_engine.
 Import ListNotations.
 Open Scope string_scope.
 Open Scope Q_scope.
 
-(* One iteration of the constituent loop of the regenerated Phreeqc::convert_units, started in any state
+(* ---------------- unit conversion: the regenerated code ---------------- *)
+
+(* One iteration of the constituent loop of the regenerated Phreeqc::convert_units, started in ANY state
    whose solution has per-kgw default units su and totals T, on a line that describes m mol/kgw of
-   constituent d in ANY of the nine per-kgw units with ANY formula-weight source (-gfw, `as`, master
-   species; alkalinity `as CaCO3` halved), stores a value equal to m under key d. *)
+   constituent d in ANY of the nine per-kgw units (Mol mMol uMol g mg ug eq meq ueq) with ANY
+   formula-weight source (-gfw number, `as` formula, master species; alkalinity `as CaCO3` halved),
+   stores a value equal to m under key d and touches no other total. *)
 Theorem convert_line_correct :
   forall (o : oracles) st su T l m g,
   SolIn su T st -> strstr_val su "/l" = VP false ->
@@ -22,6 +29,141 @@ Theorem convert_line_correct :
 Proof. exact body_ok. Qed.
 Print Assumptions convert_line_correct.
 
+(* UNIT CHANGE: the same amount written in two different units gives equal mole totals *)
+Theorem unit_change_same_totals :
+  forall (o : oracles) st su T d src m g u1 u2,
+  SolIn su T st -> strstr_val su "/l" = VP false ->
+  good_desc o d -> spec_gfw o d src = Some g -> 0 < g -> 0 < m ->
+  (match src with GAs f => f <> "" | _ => True end) ->
+  exists fl1 st1 q1 fl2 st2 q2,
+    exec_list o no_funs comps_body (bind_record (line_record (mkLine d u1 src (describe u1 m g))) st) = Some (fl1, st1) /\
+    exec_list o no_funs comps_body (bind_record (line_record (mkLine d u2 src (describe u2 m g))) st) = Some (fl2, st2) /\
+    fl1 <> FReturn /\ fl2 <> FReturn /\ q1 == q2 /\
+    SolIn su (map_put d (VQ q1) T) st1 /\ SolIn su (map_put d (VQ q2) T) st2.
+Proof. exact unit_change_gen. Qed.
+Print Assumptions unit_change_same_totals.
+
+(* hypotheses are satisfiable: 100 mg/kgw alkalinity as CaCO3 is a line of the family *)
+Example unit_change_premises_example :
+  let o := mkOracles (fun f => if String.eqb f "CaCO3" then Some (1001 # 10) else None)
+                     (fun e => Some (5005 # 100, 0)) (fun e => Some e) (fun _ => None) in
+  good_desc o "Alkalinity" /\ spec_gfw o "Alkalinity" (GAs "CaCO3") = Some ((1001 # 10) / 2)
+  /\ describe (mkUnit PMilli KGram) (2 # 1000) ((1001 # 10) / 2) == 1001 # 10.
+Proof. simpl. split; [repeat split; eexists; reflexivity|]. split; [reflexivity|]. vm_compute. reflexivity. Qed.
+
+(* the whole regenerated convert_units (prelude, loop, water scaling) agrees with the clean model on
+   concrete solutions: closed computation on the generated code *)
+Theorem gen_convert_units_agrees_on_samples :
+  forallb (fun s => gen_matches_model (fst s) (snd s)) sample_lines = true.
+Proof. exact UnitsProofs.gen_convert_units_agrees_on_samples. Qed.
+Print Assumptions gen_convert_units_agrees_on_samples.
+
+(* ---------------- unit conversion and water scaling: the clean model ---------------- *)
+
+Theorem unit_change_same_molality : forall o d src m g u1 u2,
+  spec_gfw o d src = Some g -> ~ g == 0 ->
+  exists q1 q2, line_molality o (mkLine d u1 src (describe u1 m g)) = Some q1 /\
+                line_molality o (mkLine d u2 src (describe u2 m g)) = Some q2 /\ q1 == q2.
+Proof. exact UnitsProofs.unit_change_same_molality. Qed.
+Print Assumptions unit_change_same_molality.
+
+(* WATER SCALING: k times the water gives k times every mole total (totals per kg water unchanged) *)
+Theorem water_scaling : forall o k w ls t,
+  convert_model o w ls = Some t ->
+  exists t', convert_model o (k * w) ls = Some t' /\ nd_equiv t' (nd_scale k t).
+Proof. exact water_scaling_model. Qed.
+Print Assumptions water_scaling.
+
+(* ---------------- order, repetition, renumbering (key-ordered maps) ---------------- *)
+
+(* ORDER INDEPENDENCE: constituents / blocks with distinct keys can be read in any order *)
+Theorem order_independent : forall (l1 l2 : list (string * Q)),
+  Permutation l1 l2 -> NoDup (map fst l1) ->
+  forall k, get string Q String.eqb k (of_list string Q String.compare l1)
+          = get string Q String.eqb k (of_list string Q String.compare l2).
+Proof. exact (of_list_perm string Q String.compare String.eqb String.compare_eq_iff string_compare_refl String.eqb_eq). Qed.
+Print Assumptions order_independent.
+
+(* REPEATED DEFINITION: an identical definition repeated later changes nothing *)
+Theorem repeated_definition : forall (l : list (string * Q)) k v,
+  In (k, v) l -> NoDup (map fst l) ->
+  forall k', get string Q String.eqb k' (of_list string Q String.compare (l ++ [(k, v)]))
+           = get string Q String.eqb k' (of_list string Q String.compare l).
+Proof. exact (of_list_repeat string Q String.compare String.eqb String.compare_eq_iff string_compare_refl String.eqb_eq). Qed.
+Print Assumptions repeated_definition.
+
+Theorem redefinition_idempotent : forall (k : Z) (v : Q) l,
+  put Z Q Z.compare k v (put Z Q Z.compare k v l) = put Z Q Z.compare k v l.
+Proof. exact (put_idempotent Z Q Z.compare Z.compare_refl). Qed.
+Print Assumptions redefinition_idempotent.
+
+(* RENUMBERING: defining the same entities under an injective renumbering gives the renumbered store *)
+Theorem renumbering_commutes : forall (V : Type) (sigma : Z -> Z),
+  (forall a b, sigma a = sigma b -> a = b) ->
+  forall (l : list (Z * V)) n,
+  zget V (sigma n) (zof_list V (map (fun kv => (sigma (fst kv), snd kv)) l)) = zget V n (zof_list V l).
+Proof. exact renumber_commutes. Qed.
+Print Assumptions renumbering_commutes.
+
+(* ---------------- mixing: the regenerated code ---------------- *)
+
+(* for ALL accumulator values, solution properties and factors: extensive properties are added with the
+   extensive factor, intensive ones with the intensive factor *)
+Theorem add_solution_scalars : forall (o : oracles) acc fieldv e i,
+  exists st', exec_list o no_funs as_prefix (as_state acc fieldv e i) = Some (FNormal, st')
+    /\ Forall (acc_ok acc fieldv e i st') as_table.
+Proof. exact MixGen.add_solution_scalars. Qed.
+Print Assumptions add_solution_scalars.
+
+Theorem add_solution_totals_step : forall (o : oracles) el p v e old T,
+  primary_of o el = Some p ->
+  (map_get p T = Some (VQ old) \/ (map_get p T = None /\ old = 0)) ->
+  exists st' q,
+    exec_list o no_funs as_totals_body
+      (mkState (combine gen_add_solution_params [VP true; VQ e; VQ 0]) [("input_error", VQ 0)]
+               [(pair_first, VS el); (pair_second, VQ v)] [(master_totals, T)]) = Some (FNormal, st')
+    /\ q == old + v * e
+    /\ clookup master_totals (conts st') = Some (map_put p (VQ q) T).
+Proof. exact MixGen.add_solution_totals_step. Qed.
+Print Assumptions add_solution_totals_step.
+
+Theorem gen_add_mix_agrees_on_samples : forallb (fun ds => agrees ds ["Ca"; "Cl"; "Na"]) samples = true.
+Proof. exact MixGen.gen_add_mix_agrees_on_samples. Qed.
+Print Assumptions gen_add_mix_agrees_on_samples.
+
+(* ---------------- mixing: the clean model (all sizes) ---------------- *)
+
+Theorem mix_commutes : forall cs cs', Permutation cs cs' -> mixed_equiv (mix cs) (mix cs').
+Proof. exact Mix.mix_commutes. Qed.
+Print Assumptions mix_commutes.
+
+Theorem self_mix : forall f1 f2 s cs,
+  mixed_equiv (mix ((f1, s) :: (f2, s) :: cs)) (mix ((f1 + f2, s) :: cs)).
+Proof. exact Mix.self_mix. Qed.
+Print Assumptions self_mix.
+
+Theorem self_mix_identity : forall s, ~ m_water s == 0 ->
+  let x := mix [(1, s)] in
+  x_water x == m_water s /\ x_cb x == m_cb s /\ x_th x == m_th s /\ x_to x == m_to s /\
+  (forall e, x_tot x e == m_tot s e) /\ x_tc x == m_tc s /\ x_ph x == m_ph s.
+Proof. exact Mix.self_mix_identity. Qed.
+Print Assumptions self_mix_identity.
+
+Theorem mix_water_scaling : forall k cs, ~ k == 0 -> ~ sumf fw cs == 0 ->
+  let a := mix (scale_comps k cs) in
+  let b := mix cs in
+  x_water a == k * x_water b /\ x_cb a == k * x_cb b /\ x_th a == k * x_th b /\ x_to a == k * x_to b /\
+  (forall e, x_tot a e == k * x_tot b e) /\ x_tc a == x_tc b /\ x_ph a == x_ph b.
+Proof. exact Mix.mix_water_scaling. Qed.
+Print Assumptions mix_water_scaling.
+
+(* ---------------- the verified checker used on the implementation's output ---------------- *)
+
 Theorem checker_sound : forall k a b, pair_ok k a b = true -> close a (k * b).
 Proof. exact pair_ok_sound. Qed.
 Print Assumptions checker_sound.
+
+Theorem cell_checker_sound : forall l k a b,
+  cell_ok l k a b = true -> close a (k * b) \/ (l = true /\ Qabs.Qabs (a - b) <= log_tol).
+Proof. exact cell_ok_sound. Qed.
+Print Assumptions cell_checker_sound.
